@@ -52,3 +52,79 @@ class Unchanged:
 
     def violated(self):
         return any(not np.array_equal(a, b, equal_nan=True) for a, b in zip(self.arrays, self.snap))
+
+
+def confusable(x):
+    """a different strictly increasing grid with the same length, first and last value as x (None if impossible):
+    anything that identifies a grid by (len, x[0], x[-1]) confuses the two"""
+    x = np.asarray(x, dtype=float)
+    if len(x) < 3 or not np.all(np.diff(x) > 0):
+        return None
+    t = (x - x[0]) / (x[-1] - x[0])
+    x2 = x[0] + (x[-1] - x[0]) * t ** 1.7
+    x2[0], x2[-1] = x[0], x[-1]
+    if not np.all(np.diff(x2) > 0) or np.array_equal(x2, x):
+        return None
+    return x2
+
+
+def fresh(cls):
+    """a new instance of a library class (no history)"""
+    import impl
+    return getattr(impl.pystog, cls)()
+
+
+def bits_equal(a, b):
+    if isinstance(a, tuple) or isinstance(b, tuple):
+        return isinstance(a, tuple) and isinstance(b, tuple) and len(a) == len(b) and all(bits_equal(p, q) for p, q in zip(a, b))
+    if a is None or b is None:
+        return a is None and b is None
+    a, b = np.asarray(a, dtype=float), np.asarray(b, dtype=float)
+    return a.shape == b.shape and np.array_equal(a.view(np.uint64) if a.flags.c_contiguous else np.ascontiguousarray(a).view(np.uint64),
+                                                 b.view(np.uint64) if b.flags.c_contiguous else np.ascontiguousarray(b).view(np.uint64))
+
+
+def history_differs(cls, method, args, kw, primers):
+    """True if method(*args, **kw) on an instance that first executed the primer calls [(method, args, kw), ...] differs
+    bit-wise from the same call on a fresh instance ("irrespective of earlier calls")"""
+    ref = getattr(fresh(cls), method)(*args, **kw)
+    used = fresh(cls)
+    for m, pa, pk in primers:
+        try:
+            getattr(used, m)(*pa, **pk)
+        except Exception:  # noqa: BLE001
+            pass
+    got = getattr(used, method)(*args, **kw)
+    return not bits_equal(ref, got)
+
+
+_API = None
+
+
+def api_names(entry):
+    """documented parameter names of a public method at the pinned commit (harness/api_names.json, tools/mk_api_names.py)"""
+    global _API
+    if _API is None:
+        import json, os
+        _API = json.load(open(os.path.join(os.path.dirname(os.path.dirname(os.path.abspath(__file__))), "api_names.json")))
+    return _API.get(entry)
+
+
+def keyword_call_differs(obj, entry, args, kw, ref):
+    """Call the method with every argument passed under its documented keyword name (None arguments omitted) and compare
+    bit-wise with the positional result `ref`.  Every public method also accepts **kwargs, so a renamed parameter does not
+    raise: the argument is silently swallowed.  Returns a failure string or None."""
+    names = api_names(entry)
+    if names is None or len(names) < len(args):
+        return None
+    named = {n: a for n, a in zip(names, args) if a is not None}
+    meth = entry.split(".")[1]
+    try:
+        with np.errstate(all="ignore"):
+            got = getattr(obj, meth)(**named, **kw)
+    except TypeError as ex:
+        return f"{meth}: calling with the documented keyword names raises TypeError ({str(ex)[:80]})"
+    if not bits_equal(tuple(ref) if isinstance(ref, (tuple, list)) else ref, tuple(got) if isinstance(got, (tuple, list)) else got):
+        return (f"{meth}: passing the arguments under their documented keyword names ({', '.join(named)}) gives a different result than "
+                "passing them positionally (an argument is swallowed by **kwargs)")
+    return None
